@@ -7,7 +7,8 @@
    connection, sources are inputs/hidden, targets hidden/outputs (hence acyclic, forward only);
    every hidden and output node has an incoming connection, every hidden node an outgoing one;
    one weight per connection; an activation code exactly for the hidden and output nodes.       *)
-From TF Require Import Base Net NetAlgebra NetOrder NetProofs NetProofs2 NetMLPProofs NetOrderProofs.
+From TF Require Import Base Net NetAlgebra NetOrder NetProofs NetProofs2 NetMLPProofs NetOrderProofs
+     NetMLPProofs2.
 Local Open Scope nat_scope.
 
 (* the mutual recursion Net.__add__ <-> Net.__gt__ terminates: fuel 3 always yields one of the
@@ -96,9 +97,23 @@ Theorem C13_mlp_architecture : forall ni no hs act offset oact,
 Proof. exact mlp_architecture. Qed.
 Print Assumptions C13_mlp_architecture.
 
-(* multiplicities of the connection rows (the only duplicated rows are bias -> first layer):
-   C13_mlp_architecture speaks about the set; the multiset clause is proved only as this
-   bounded sweep: hidden tuples of <= 3 layers with sizes 1..3, n_inputs 1..4, n_outputs 1..3 *)
+(* the connection rows as a MULTISET, for EVERY hidden tuple (sizes >= 1), n_inputs, n_outputs >= 1,
+   offset on/off: the rows are a permutation of the specification list (full bipartite between
+   consecutive layers ++ bias -> every layer when offset), and the exact multiplicity of every row
+   is: 2 for bias -> first layer when offset (the bias column is also an input column), 1 for every
+   other requested row, 0 for anything else *)
+Theorem C13_mlp_duplicates : forall ni no hs act offset oact,
+  1 <= ni -> 1 <= no -> Forall (fun h => 1 <= h) hs ->
+  exists r, define_net true ni no hs act offset oact = Some r /\
+    Permutation.Permutation (n_con r) (mlp_spec_connects ni no hs offset) /\
+    forall c, count_pair c (n_con r) =
+      if offset && (fst c =? ni - 1) && mem (snd c) (hd [] (mlp_ranges ni (hs ++ [no]))) then 2
+      else if existsb (pair_eqb c) (mlp_spec_connects ni no hs offset) then 1 else 0.
+Proof. exact mlp_duplicates. Qed.
+Print Assumptions C13_mlp_duplicates.
+
+(* SUPERSEDED by C13_mlp_duplicates (kept as a regression): bounded sweep over hidden tuples of
+   <= 3 layers with sizes 1..3, n_inputs 1..4, n_outputs 1..3 *)
 Theorem C13_mlp_duplicates_sweep_3layers_size3_in4_out3 : mlp_dups_sweep = true.
 Proof. exact mlp_duplicates_sweep_3layers_size3_in4_out3. Qed.
 Print Assumptions C13_mlp_duplicates_sweep_3layers_size3_in4_out3.
